@@ -20,8 +20,10 @@ STD_TOKEN = 'packages/axelar-soroban-std/src/token.rs'
 MUTANTS = []
 
 
-def M(prop, id, file, find, replace, expect=None, equiv=False):
-    MUTANTS.append(dict(prop=prop, id=id, file=file, find=find, replace=replace, expect=expect, equiv=equiv))
+def M(prop, id, file, find, replace, expect=None, equiv=False, base=None):
+    """base: name of a behaviour-preserving refactoring in selftest/refactors/ applied first (the mutant then breaks the REFACTORED code:
+    the checks must follow the refactoring and still see the defect)"""
+    MUTANTS.append(dict(prop=prop, id=id, file=file, find=find, replace=replace, expect=expect, equiv=equiv, base=base))
 
 
 # ---------------- C13 ----------------
@@ -724,3 +726,43 @@ M('C03', 'overflow-checks-off-c03', 'Cargo.toml', 'overflow-checks = true', 'ove
 M('C01', 'constructor-forgets-domain-separator', AUTH, '    env.storage()\n        .instance()\n        .set(&DataKey::DomainSeparator, &domain_separator);\n', '    let _ = &domain_separator;\n', 'C01.R5')
 M('C05', 'executable-call-swaps-id-and-chain', ITS, '                        &source_chain,\n                        &message_id,\n                        &source_address,\n                        &payload,', '                        &message_id,\n                        &source_chain,\n                        &source_address,\n                        &payload,', 'C05.R5')
 M('C12', 'approve-zero-with-past-expiry-refused', TOK, '            !(amount > 0 && expiration_ledger < env.ledger().sequence()),', '            !(amount >= 0 && expiration_ledger < env.ledger().sequence()),', 'C12.R5')
+
+# ---------------- defects seeded into independently REFACTORED code (base = selftest/refactors/<name>.diff) ----------------
+GAS_ = 'contracts/axelar-gas-service/src/contract.rs'
+UPG = 'packages/axelar-soroban-std/src/interfaces/upgradable.rs'
+M('C02', 'is-executed-matches-approved', GW, 'message_approval == MessageApprovalValue::Executed', 'matches!(message_approval, MessageApprovalValue::Approved(_))', 'C02.R4')
+M('C02', 'refactor3-is-executed-matches', GW, 'message_approval == MessageApprovalValue::Executed', 'matches!(message_approval, MessageApprovalValue::Executed)', equiv=True)
+M('C02', 'rf-gwmsg2-validate-inverted', GW, '        if message_approval != Self::message_approval_hash(&env, &message) {\n            return false;', '        if message_approval == Self::message_approval_hash(&env, &message) {\n            return false;', 'C02.R3', base='gwmsg-2')
+M('C02', 'rf-gwmsg2-executed-matches-notapproved', GW, '            MessageApprovalValue::Executed\n        )', '            MessageApprovalValue::NotApproved\n        )', 'C02.R4', base='gwmsg-2')
+M('C10', 'rf-abi1-split-at-8', ABI, 'value.as_le_slice().split_at(16)', 'value.as_le_slice().split_at(8)', 'C10.R5', base='abi-1')
+M('C10', 'rf-abi1-halves-swapped', ABI, 'let (low_half, high_half) = value', 'let (high_half, low_half) = value', 'C10.R5', base='abi-1')
+M('C10', 'rf-abi1-get-31', ABI, 'payload.get(..32)', 'payload.get(..31)', 'C10.R6', base='abi-1')
+M('C10', 'rf-abi1-then-inverted', ABI, '(!value.is_empty()).then(', '(value.is_empty()).then(', 'C10.R8', base='abi-1')
+M('C10', 'rf-abi3-none-is-zero-byte', ABI, 'value.map_or_else(alloc::vec::Vec::new, ', 'value.map_or_else(|| alloc::vec![0u8], ', 'C10.R8', base='abi-3')
+M('C15', 'rf-gasops3-window-test-inverted', UPG, '    if !is_migrating(env) {', '    if is_migrating(env) {', 'C15.R2', base='gasops-3')
+M('C15', 'rf-gasops3-flag-not-removed', UPG, '    env.storage().instance().remove(&MIGRATING_KEY);\n', '    let _ = &MIGRATING_KEY;\n', 'C15.R2', base='gasops-3')
+M('C04', 'rf-itsexec2-untrusted-accepted', ITS, '        Self::is_trusted_chain(env, original_source_chain.clone())\n            .then_some(', '        (!Self::is_trusted_chain(env, original_source_chain.clone()))\n            .then_some(', 'C04.R2', base='itsexec-2')
+M('C04', 'rf-itsexec2-send-to-hub-accepted', ITS, '            HubMessage::SendToHub { .. } => return Err(ContractError::InvalidMessageType),', '            HubMessage::SendToHub { destination_chain, message } => (destination_chain, message),', 'C04.R2', base='itsexec-2')
+M('C11', 'rf-itsdeploy1-minter-dropped', ITS, '            Some(requested) => Ok(Some(requested.clone())),', '            Some(_) => Ok(None),', 'C11.R6', base='itsdeploy-1')
+M('C17', 'rf-gasops2-remove-absent-accepted', 'contracts/axelar-operators/src/contract.rs', '            .has(&key)\n            .then_some(())', '            .has(&key)\n            .then_some(())\n            .or(Some(()))', 'C17.R3', base='gasops-2')
+M('C15', 'rf-gasops2-upgrader-version-check-inverted', 'contracts/upgrader/src/contract.rs', '        (upgraded_version == new_version)\n            .then_some(())', '        (upgraded_version != new_version)\n            .then_some(())', 'C15.R4', base='gasops-2')
+M('C07', 'mint-negative-amount', TOK, """        Self::validate_amount(env, amount);
+
+        Self::receive_balance(env, to.clone(), amount);
+
+        extend_instance_ttl(env);
+
+        TokenUtils::new(env).events().mint(""", """        Self::receive_balance(env, to.clone(), amount);
+
+        extend_instance_ttl(env);
+
+        TokenUtils::new(env).events().mint(""", 'C07.G')
+M('C06', 'refund-auth-for-args', GAS_, """        Self::gas_collector(&env).require_auth();
+
+        token::Client::new(&env, &token.address).transfer(
+            &env.current_contract_address(),
+            &receiver,""", """        Self::gas_collector(&env).require_auth_for_args(soroban_sdk::IntoVal::into_val(&(message_id.clone(), receiver.clone()), &env));
+
+        token::Client::new(&env, &token.address).transfer(
+            &env.current_contract_address(),
+            &receiver,""", 'C06.R1')
